@@ -69,7 +69,13 @@ def analyse(prog, which):
 
 
 def check(prog, rep, which, rules=None, keyprefix='parse'):
-    res = analyse(prog, which)
+    try:
+        res = analyse(prog, which)
+    except (pxm.Limit, MemoryError, RecursionError) as ex:
+        # fail closed: a parser too branchy to explore within the state budget has no table, hence no verdict in its favour
+        rep.ob('%s:%s:explore' % (keyprefix, which), 'PARSE-EXPLORE', which, '-', '%s parser: explored within the state budget' % which, False,
+               'INCONCLUSIVE(%s: %s)' % (type(ex).__name__, str(ex)[:200]))
+        return None
     if res is None:
         rep.ob('%s:%s:anchor' % (keyprefix, which), 'PARSE-ANCHOR', which, '-', 'parser function for %s found' % which, False, 'ANCHOR-MISSING: no function with the expected iterator signature and result type')
         return None
